@@ -9,7 +9,7 @@ list="$@"; [ -z "$list" ] && list=$(ls seeded | grep '^C[0-9][0-9]-[0-9]*$' | so
 for m in $list; do
   d=seeded/$m; p=${m%-*}
   if [ -n "$(git -C /repo status --porcelain --untracked-files=no)" ]; then echo "repo not clean"; exit 1; fi
-  if ! git -C /repo apply $d/patch.diff 2>/dev/null; then echo -e "$m\tNOAPPLY" | tee -a seeded/RESULTS.tsv.new; continue; fi
+  if ! git -C /repo apply /verif/$d/patch.diff 2>/dev/null; then echo -e "$m\tNOAPPLY" | tee -a seeded/RESULTS.tsv.new; continue; fi
   res=""
   for c in $p ${extra[$m]}; do
     out=$(./check $c quick 2>&1); rc=$?
